@@ -106,7 +106,12 @@ Ops(o, few) ==
        \cup {[op |-> "pickle", res |-> o]}
        \cup {[op |-> "dict", flat |-> f, res |-> o] : f \in BOOLEAN}
   ELSE \* conversions
-       {[op |-> "to_namespace", ns |-> t, res |-> [o EXCEPT !.ns = t]] : t \in {"numpy", "torch", "jax"}}
+       {[op |-> "to_namespace", ns |-> t, dt |-> 0, res |-> [o EXCEPT !.ns = t]] : t \in {"numpy", "torch", "jax"}}
+       \* to_namespace(xp, dtype=...) of the classes that accept a precision: the target may be the
+       \* namespace the set already lives in (then only the precision changes)
+       \cup (IF o.cls = "Samples" THEN {}
+             ELSE {[op |-> "to_namespace", ns |-> t, dt |-> d, res |-> [o EXCEPT !.ns = t, !.width = d]] :
+                     t \in {"numpy", "torch", "jax"}, d \in {32, 64}})
        \cup {[op |-> "to_numpy", res |-> [o EXCEPT !.ns = "numpy"]]}
        \cup {[op |-> "from_samples", ns |-> t, dt |-> d,
               \* from_samples is a (possibly class-changing) constructor from the four array fields:
